@@ -15,6 +15,11 @@ namespace sbepp
 
 namespace wire
 {
+void runaway()
+{
+    sim::report_handler("HARNESS-CAP: traversal of a finite frame produced more than 300000 records (runaway loop in the code under test)", "runaway", 0);
+}
+
 std::vector<Driver>& drivers()
 {
     static std::vector<Driver> d;
